@@ -5,8 +5,9 @@ EXTENDS FeedforwardLoop, TLC, Json, IOUtils
 
 Traces == ndJsonDeserialize(IOEnv.TRACE_FILE)
 
-VARIABLES tid, l, phase
-tvars == <<vars, tid, l, phase>>
+VARIABLES tid, l, phase,
+          Pv        \* dataflow: id (interned bit pattern, A2) of the covariance the filter must currently hold
+tvars == <<vars, tid, l, phase, Pv>>
 
 Tr == Traces[tid]
 Ev == Tr.events
@@ -46,7 +47,21 @@ Clauses == [
                                               /\ \A j \in 1..Len(MLines[k].hits) :
                                                     MLines[k].w[j] = ExpWidth(MLines[k].hits[j])
 ]
-Failing == {c \in DOMAIN Clauses : ~Clauses[c]}
+\* ---------------------------------------------------------------- dataflow of the estimation recursion (C11, discrete part)
+\* Every step of the filter must be the Kalman step of the public model: the harness keeps its own copy of what x and P must be
+\* (P0 from transform_to_internal and the sensor models' P; every kalman.correct output; Phi x and Phi P Phi' + Qd after every
+\* propagation, with Phi, Qd as kalman.compute_process_matrices returned them) and logs per observed call whether its inputs are
+\* that value (*_ok: within 1e-9 relative - contract; ids / *_bit: bit-identical - refinement, walked line by line below).
+DataflowClause ==
+  Obs.flow.on =>
+    /\ Obs.flow.p0_ok
+    /\ \A k \in 1..Len(MLines) : \A j \in 1..Len(MLines[k].c) :
+          /\ MLines[k].c[j].pin_ok /\ MLines[k].c[j].xin_ok /\ MLines[k].c[j].args_ok
+    /\ \A k \in 1..Len(ALines) : ALines[k].dt_ok              \* propagation interval = the step the result index takes
+    /\ (Obs.flow.rows_ok => Obs.flow.sd_ok /\ Obs.flow.est_ok /\ Obs.flow.comp_ok)
+         \* result rows: sd = sqrt(diag(T P T')), sensor tables = x blocks, compensated trajectory = computed - T x, all of the
+         \* (x, P) held when the row was recorded
+Failing == {c \in DOMAIN Clauses : ~Clauses[c]} \cup (IF DataflowClause THEN {} ELSE {"dataflow"})
 
 TraceInit ==
   /\ tid \in 1..Len(Traces)
@@ -55,13 +70,14 @@ TraceInit ==
             hz    |-> Traces[tid].hz,
             inct  |-> ToSetS(Traces[tid].inct)]
   /\ InitLoop
+  /\ Pv = Traces[tid].obs.flow.p0id
   /\ l = 1 /\ phase = "contract"
 
 CheckContract ==
   /\ phase = "contract"
   /\ PrintT(<<"CONTRACT", Tr.tid, Failing>>)
   /\ phase' = (IF Tr.returned THEN "run" ELSE "stop")
-  /\ UNCHANGED <<vars, tid, l>>
+  /\ UNCHANGED <<vars, tid, l, Pv>>
 
 IsEvent(a) == phase = "run" /\ l <= Len(Ev) /\ Ev[l].a = a /\ l' = l + 1 /\ UNCHANGED <<tid, phase>>
 
@@ -72,12 +88,19 @@ TraceMeas ==
   /\ Sorted(Hits(Mts[mi])) = Ev[l].hits
   /\ Ev[l].corr = Len(Ev[l].hits)
   /\ (Ev[l].row # 0 => (Ev[l].row = Times[index] /\ Ev[l].nrow = Times[index + 1] /\ Ev[l].aok))
+  /\ LET c == Ev[l].c IN
+       IF Obs.flow.on /\ c # <<>>
+       THEN /\ c[1].pin = Pv /\ c[1].xin_bit
+            /\ \A j \in 2..Len(c) : c[j].pin = c[j - 1].pout /\ c[j].xin = c[j - 1].xout
+            /\ Pv' = c[Len(c)].pout
+       ELSE UNCHANGED Pv
 
 TraceAdvance ==
   /\ IsEvent("A")
   /\ Advance
   /\ (Ev[l].T # 0 => (Ev[l].T = Times[index] /\ Ev[l].T2 = Times[index']))
   /\ Ev[l].dpos
+  /\ IF Obs.flow.on THEN Ev[l].psnap = Pv /\ Ev[l].dt_bit /\ Pv' = Ev[l].pexp ELSE UNCHANGED Pv
 
 TraceFinish ==
   /\ phase = "run" /\ l = Len(Ev) + 1
@@ -87,7 +110,7 @@ TraceFinish ==
   /\ Obs.resets = 2
   /\ TLCSet(1, TLCGet(1) + 1)
   /\ PrintT(<<"ACCEPT", Tr.tid>>)
-  /\ phase' = "accepted" /\ UNCHANGED <<tid, l>>
+  /\ phase' = "accepted" /\ UNCHANGED <<tid, l, Pv>>
 
 TraceNext == CheckContract \/ TraceMeas \/ TraceAdvance \/ TraceFinish
 TraceSpec == TraceInit /\ [][TraceNext]_tvars
